@@ -1,6 +1,7 @@
 package dicescript
 
 import (
+	"math"
 	"strings"
 	"unicode/utf8"
 )
@@ -11,6 +12,7 @@ type CustomDiceStream struct {
 	start  int
 	offset int
 	runes  []int
+	host   *parser // 发起本次尝试的解析器: ReadExpr 沿用它的错误语言与解析算力上限
 }
 
 func (s *CustomDiceStream) init(data []byte, start int) {
@@ -116,19 +118,51 @@ func (s *CustomDiceStream) ReadExpr(entry string) (*VMValue, bool, error) {
 		return nil, false, nil
 	}
 
-	parser := newParser("", s.data[absStart:], memoized(true))
+	// 子解析器直接读整段输入、从当前游标处起步: 这样它报告的偏移、行列和引用的源码行都是相对整段输入的
+	parser := newParser("", s.data, memoized(true))
 	parser.entrypoint = entry
+	line, col, from := 1, 1, 0
+	if s.host != nil && s.host.pt.offset == s.start {
+		line, col, from = s.host.pt.line, s.host.pt.col, s.start
+	}
+	for i := from; i < absStart; {
+		r, size := utf8.DecodeRune(s.data[i:])
+		if r == '\n' {
+			line, col = line+1, 1
+		} else {
+			col++
+		}
+		i += size
+	}
+	parser.pt = savepoint{position: position{line: line, col: col - 1, offset: absStart}}
+	parser.maxFailPos = position{line: line, col: col, offset: absStart}
 
 	data := parser.cur.data
 	data.code = make([]ByteCode, 64)
 	data.codeIndex = 0
 	data.pendingCustomDice = nil
 
+	lang := parseErrorLanguage
+	if host := s.host; host != nil {
+		// 子解析是宿主解析的一部分: 消息语言相同，所做的工作计入同一个解析算力上限
+		lang = host.cur.data.Config.ParseErrorLanguage
+		data.Config.ParseErrorLanguage = lang
+		if host.maxExprCnt != 0 && host.maxExprCnt != math.MaxUint64 {
+			if host.ExprCnt < host.maxExprCnt {
+				parser.maxExprCnt = host.maxExprCnt - host.ExprCnt
+			} else {
+				parser.maxExprCnt = 1
+			}
+		}
+		defer func() { host.ExprCnt += parser.ExprCnt }()
+	}
+
 	if _, err := parser.parse(nil); err != nil {
+		applyParseErrorLanguage(err, lang)
 		return nil, false, err
 	}
 
-	consumed := parser.pt.offset
+	consumed := parser.pt.offset - absStart
 	if consumed <= 0 {
 		return nil, false, nil
 	}
